@@ -231,6 +231,24 @@ class Engine(ExprMixin, CallMixin, SpecMixin, StmtMixin):
             for lo in c.loops:
                 if lo >= k:
                     raise StaleContract("%s: contract names loop %d but the function has %d loops" % (c.qualname, lo, k))
+            self.site_map = {}
+            if c.sites:
+                cnt = {}
+                calls = [n for n in ast.walk(fn) if isinstance(n, ast.Call)]
+                calls.sort(key=lambda n: (n.lineno, n.col_offset))
+                for n in calls:
+                    d = self.dotted(n.func) if isinstance(n.func, (ast.Attribute, ast.Name)) else None
+                    if d is None and isinstance(n.func, ast.Attribute):
+                        d = "<expr>." + n.func.attr  # method of a computed value, e.g. '.'.join(...)
+                    if d is None:
+                        continue
+                    cnt[d] = cnt.get(d, 0) + 1
+                    key = "%s@%d" % (d, cnt[d])
+                    if key in c.sites:
+                        self.site_map[id(n)] = key
+                missing = [k for k in c.sites if k not in self.site_map.values()]
+                if missing:
+                    raise StaleContract("%s: call site(s) %r not found in the function body" % (c.qualname, missing))
             st = State(self)
             st.alloc = z3.Int("alloc0")
             st.assume(st.alloc >= 0)
